@@ -59,7 +59,7 @@ theorem marker_popped (st : LoopState) (el : Bytes) (rest : List Bytes)
   simp [popMarker, hflag, hstack]
 
 example :
-    let p : Policy := { elsAndAttrs := [(b!"a", [(b!"href", [none])]), (b!"b", []), (b!"img", [(b!"src", [none])])],
+    let p : Policy := { initialized := true, elsAndAttrs := [(b!"a", [(b!"href", [none])]), (b!"b", []), (b!"img", [(b!"src", [none])])],
                         setOfElementsAllowedWithoutAttrs := [b!"b"] }
     p.sanitizeCore b!"<a><b><a href=x>1</a></b><img>2</a>3" = b!"<b><a href=\"x\">1</a></b>23" := by decide
 
